@@ -3,7 +3,7 @@
 From Coq Require Import ZArith List Bool Arith Sorted.
 Import ListNotations.
 From FV.C09 Require Import Table AttrModel.
-From FV.C09 Require Import Model Proofs PolyModel PolyProofs.
+From FV.C09 Require Import Model Proofs PolyModel PolyProofs PolyCut PolyCutProofs.
 From FV.C09.gen Require Import FirstOrder MeshCfg.
 
 (* np.unique and the two-pointer sweep of remove_useless_nodes *)
@@ -177,6 +177,51 @@ Theorem C09_to_first_order_elements : forall (bs fe : @blocks conn),
              end) bs fe.
 Proof. exact elems_first_order_spec. Qed.
 
+(* cut_with_element_ids on a mesh whose polyhedra carry the 'face' variable (PolyCut.cut_face =
+   the mesh cut + filter_with_ids of the variable + convert_polyhedron on the rows of its
+   'polyhedron' block): exactly the requested elements carry a row; every row of the cut mesh
+   names, face by face, the same node ids in the node table of the cut mesh as the row of that
+   element did in the parent, and has the same length; rows of other types pass through *)
+Theorem C09_cut_with_element_ids_face : forall (V : Type) (m m' : mesh V) face face' sel,
+  wf_mesh m = true -> face_wf m face -> cut_face m face sel = Some (m', face') ->
+  cut_with_element_ids m sel = Some m' /\
+  (forall i row', In (i, (POLY, row')) (flatten face') ->
+     exists row, In i sel /\ In (i, (POLY, row)) (flatten face) /\
+                 faces_of (ids (nodes m')) row' = faces_of (ids (nodes m)) row /\
+                 length row' = length row) /\
+  (forall i row, In i sel -> In (i, (POLY, row)) (flatten face) ->
+     exists row', In (i, (POLY, row')) (flatten face') /\
+                  faces_of (ids (nodes m')) row' = faces_of (ids (nodes m)) row) /\
+  (forall i t row, t <> POLY ->
+     (In (i, (t, row)) (flatten face') <-> In i sel /\ In (i, (t, row)) (flatten face))).
+Proof. intros V. exact (@cut_face_spec V). Qed.
+
+(* the conversion adds no error path *)
+Theorem C09_cut_face_total : forall (V : Type) (m m' : mesh V) face sel,
+  face_wf m face -> cut_with_element_ids m sel = Some m' ->
+  exists face', cut_face m face sel = Some (m', face').
+Proof. intros V. exact (@cut_face_total V). Qed.
+
+Definition m_poly : mesh Z :=
+  {| nodes := [(30, 3); (10, 1); (20, 2); (40, 4)]%Z;
+     elems := [(POLY, [(7, [10; 20; 30])])]%Z; nodal := []; elemental := [] |}.
+Definition face_poly : @blocks (list Z) := [(POLY, [(7, [2; 3; 0; 1; 2; 2; 1; 2])])]%Z.
+
+Example C09_cut_face_nonvacuous :
+  wf_mesh m_poly = true /\ face_wf m_poly face_poly /\
+  exists m', cut_face m_poly face_poly [7]%Z = Some (m', [(POLY, [(7, [2; 3; 2; 0; 1; 2; 0; 1])])]%Z) /\
+             ids (nodes m') = [10; 20; 30]%Z.
+Proof.
+  split; [reflexivity|]. split.
+  - split.
+    + simpl. constructor; [intros []|constructor].
+    + intros i row H. simpl in H. destruct H as [E|[]]. inversion E; subst.
+      exists [[30; 10; 20]; [10; 20]]%Z, POLY, [10; 20; 30]%Z.
+      split; [reflexivity|]. split; [simpl; now left|].
+      intros n Hn. simpl in Hn. simpl. intuition.
+  - eexists. split; reflexivity.
+Qed.
+
 (* the table read from FEMElementalAttribute._to_first_order (gen/FirstOrder.v) is the right one:
    a type that is reduced keeps exactly the nodes of its first-order counterpart (tet2 -> the 4 of
    tet, hex2 -> the 8 of hex, and for the types the code does not support yet line2 2, tri2 3,
@@ -262,3 +307,4 @@ Print Assumptions C09_sweep_correct.
 Print Assumptions C09_tree_decided.
 Print Assumptions C09_convert_polyhedron.
 Print Assumptions C09_to_first_order_elements.
+Print Assumptions C09_cut_with_element_ids_face.
